@@ -20,16 +20,23 @@ theorem missingOf_none_iff (items : List Item) :
     unfold missingOf at ih ⊢
     cases a <;> simp_all [isMissing]
 
-theorem unknown_filter_nil_iff (items : List Item) :
-    (optsOf true items).filter (·.unknown) = [] ↔ items.any isUnknown = false := by
+theorem unknown_filter_nil_iff (b : Bool) (items : List Item) :
+    (optsOf b items).filter (·.unknown) = [] ↔ items.any isUnknown = false := by
   induction items with
   | nil => simp [optsOf]
   | cons a l ih =>
     unfold optsOf at ih ⊢
-    cases a <;> simp_all [isUnknown, Item.toOpt, known, unknownShort, unknownLongOpt]
+    cases a <;> cases b <;> simp_all [isUnknown, Item.toOpt, known, unknownShort, unknownLongOpt]
+
+theorem extraOf_nil_iff (items : List Item) : extraOf items = [] ↔ items.any isBadArg = false := by
+  induction items with
+  | nil => simp [extraOf]
+  | cons a l ih =>
+    unfold extraOf at ih ⊢
+    cases a <;> simp_all [isBadArg]
 
 theorem parseErrors_nil_iff (st : PState) :
-    parseErrors st = [] ↔ st.opt = none ∧ st.opts.filter (·.unknown) = [] := by
+    parseErrors st = [] ↔ st.opt = none ∧ st.opts.filter (·.unknown) = [] ∧ st.extraArg = [] := by
   unfold parseErrors
   rcases st.opt with _ | o <;> simp
 
@@ -71,8 +78,8 @@ theorem wordOpts_cluster_ne_nil (specs : List OptionSpec) (s : Bytes) (h : s ≠
 theorem completeLast_eq (specs : List OptionSpec) (hwf : WF specs) (cfg : Nat) (items : List Item)
     (last : Bytes) :
     completeLast true specs cfg
-        ⟨optsOf true items, operandsOf items, missingOf items, ended cfg items⟩ last =
-      .ok (optsOf true items ++ (context cfg specs items last).1, operandsOf items,
+        ⟨optsOf false items, operandsOf items, missingOf items, ended cfg items, extraOf items⟩ last =
+      .ok (optsOf false items ++ (context cfg specs items last).1, operandsOf items,
            (context cfg specs items last).2) := by
   unfold completeLast context
   rcases hm : missingOf items with _ | o
@@ -135,7 +142,7 @@ theorem completeLast_eq (specs : List OptionSpec) (hwf : WF specs) (cfg : Nat) (
 theorem complete_eq (specs : List OptionSpec) (hwf : WF specs) (cfg : Nat) (front : List Bytes)
     (last : Bytes) :
     Complete true (front ++ [last]) specs cfg =
-      .ok (optsOf true (Spec.read cfg specs front false) ++
+      .ok (optsOf false (Spec.read cfg specs front false) ++
              (context cfg specs (Spec.read cfg specs front false) last).1,
            operandsOf (Spec.read cfg specs front false),
            (context cfg specs (Spec.read cfg specs front false) last).2) := by
